@@ -106,6 +106,42 @@ def build(profile, features=None, bins=("jv-worker",)):
         lock.close()
 
 
+INTERN = os.path.join(VERIF, "harness-intern")
+
+
+def build_intern(profile):
+    """jv-intern (interner op-sequence driver) for rel | chk; returns the binary path.
+    profile 'miri' returns the command prefix that runs it under Miri."""
+    key = ("intern", profile)
+    if key in _built:
+        return _built[key]
+    lock = _flock("cargo-intern-" + profile)
+    try:
+        import shutil
+        shutil.copyfile(os.path.join(REPO, "Cargo.lock"), os.path.join(INTERN, "Cargo.lock"))
+        env = dict(ENV_BASE)
+        if profile == "miri":
+            tdir = os.path.join(BUILD, "intern-miri")
+            env["MIRIFLAGS"] = "-Zmiri-disable-isolation"
+            cmd = ["cargo", "+nightly", "miri", "run", "--offline", "--target-dir", tdir, "--"]
+            # build once (and check that Miri is usable) with a trivial history
+            p = subprocess.run(cmd + ["replay", "1", "12"], cwd=INTERN, env=env, stdout=subprocess.PIPE, stderr=subprocess.PIPE, text=True)
+            if p.returncode != 0 or '"violation":null' not in p.stdout:
+                sys.stderr.write(p.stderr[-4000:])
+                raise Broken("Miri run of the interner driver failed")
+            res = (cmd, env)
+        else:
+            tdir = os.path.join(BUILD, "intern")
+            _run(["cargo", "build", "--offline", "--profile", profile, "--target-dir", tdir], INTERN, env, "interner driver build (%s)" % profile)
+            res = os.path.join(tdir, profile, "jv-intern")
+            if not os.path.exists(res):
+                raise Broken("built binary missing: " + res)
+        _built[key] = res
+        return res
+    finally:
+        lock.close()
+
+
 def build_cli():
     """Build the repository's own executables and C library from the working tree."""
     if "cli" in _built:
